@@ -6,21 +6,21 @@ Invariant of the thread-pool micro-step model and its preservation by every smal
 namespace Cocls.Pool
 
 def Pc.isWorker : Pc → Bool
-  | Pc.wLoop | Pc.wCvCheck | Pc.wCvBlocked | Pc.wRun _ | Pc.wFlush | Pc.wAfterJob | Pc.wExit | Pc.stuck => true
+  | Pc.wRelock | Pc.wLoop | Pc.wCvEnter | Pc.wCvCheck | Pc.wCvBlocked | Pc.wRun _ | Pc.wFlush | Pc.wAfterJob | Pc.wExit | Pc.stuck => true
   | _ => false
 /-- code of `worker()` itself that touches the pool object -/
 def Pc.isLoop : Pc → Bool
-  | Pc.wLoop | Pc.wCvCheck | Pc.wCvBlocked | Pc.wRun _ | Pc.wExit => true
+  | Pc.wRelock | Pc.wLoop | Pc.wCvEnter | Pc.wCvCheck | Pc.wCvBlocked | Pc.wRun _ | Pc.wExit => true
   | _ => false
 def Pc.inStop : Pc → Bool
   | Pc.stopJoin | Pc.joinBlocked | Pc.stopDrop => true
   | _ => false
 /-- pcs a thread can be at while it executes an activity (script, job body, closure destructor) -/
 def Pc.inBody : Pc → Bool
-  | Pc.idle | Pc.afterEnq _ _ | Pc.waitFlag _ | Pc.stopJoin | Pc.joinBlocked | Pc.stopDrop => true
+  | Pc.idle | Pc.enqCS _ | Pc.afterEnq _ _ | Pc.stopCS _ | Pc.waitFlag _ | Pc.stopJoin | Pc.joinBlocked | Pc.stopDrop => true
   | _ => false
 def Pc.bodyPhase : Pc → Bool
-  | Pc.idle | Pc.afterEnq _ _ | Pc.waitFlag _ | Pc.stopJoin | Pc.joinBlocked | Pc.stopDrop | Pc.wFlush => true
+  | Pc.idle | Pc.enqCS _ | Pc.afterEnq _ _ | Pc.stopCS _ | Pc.waitFlag _ | Pc.stopJoin | Pc.joinBlocked | Pc.stopDrop | Pc.wFlush => true
   | _ => false
 
 structure Inv (c : Cfg) (s : State) : Prop where
@@ -35,11 +35,12 @@ structure Inv (c : Cfg) (s : State) : Prop where
   t_script : ∀ t, s.ret t = Ret.script → c.nw ≤ t
   t_noB : ∀ t, s.ret t ≠ Ret.dtorB
   t_enq : ∀ t j a, s.pc t = Pc.afterEnq j a → j < s.nextJob
+  t_enq2 : ∀ t j, s.pc t = Pc.enqCS j → j < s.nextJob
   -- where every closure is
   l_q : ∀ j, j ∈ s.q ↔ s.loc j = Loc.queued
   l_qnd : s.q.Nodup
   l_held : ∀ t j, s.pc t = Pc.wRun j ↔ s.loc j = Loc.held t
-  l_rej : ∀ t j, s.pc t = Pc.afterEnq j false ↔ s.loc j = Loc.rejected t
+  l_rej : ∀ t j, (s.pc t = Pc.afterEnq j false ∨ s.pc t = Pc.enqCS j) ↔ s.loc j = Loc.rejected t
   l_swap : ∀ t j, j ∈ s.dq t ↔ s.loc j = Loc.swapped t
   l_dqnd : ∀ t, (s.dq t).Nodup
   l_dqpc : ∀ t, s.dq t ≠ [] → (s.pc t).inStop = true
@@ -66,8 +67,9 @@ structure Inv (c : Cfg) (s : State) : Prop where
   b_fut : ∀ j, dropKind c (s.kind j) = DropAct.breakPromise →
             (s.armed j = true → s.cancelled j = s.dropped j) ∧ (s.armed j = false → s.cancelled j = 0)
   f_own : ∀ t j a, s.pc t = Pc.afterEnq j a → s.owner j = t ∧ s.armed j = false
+  f_own2 : ∀ t j, s.pc t = Pc.enqCS j → s.owner j = t ∧ s.armed j = false
   f_arm : ∀ j, hasFut (s.kind j) = true → j < s.nextJob → s.armed j = false →
-            s.pc (s.owner j) = Pc.afterEnq j true ∨ s.pc (s.owner j) = Pc.afterEnq j false
+            s.pc (s.owner j) = Pc.afterEnq j true ∨ s.pc (s.owner j) = Pc.afterEnq j false ∨ s.pc (s.owner j) = Pc.enqCS j
   f_broken : ∀ j, dropKind c (s.kind j) = DropAct.breakPromise → s.dropped j = if s.fut j = Fut.broken then 1 else 0
   f_brk : ∀ j, s.fut j = Fut.broken → dropKind c (s.kind j) = DropAct.breakPromise
   f_some : ∀ j, hasFut (s.kind j) = true → j < s.nextJob → s.fut j ≠ Fut.none
@@ -84,8 +86,11 @@ structure Inv (c : Cfg) (s : State) : Prop where
   n_wake : s.exit = false → s.q ≠ [] → ∃ w, w < c.nw ∧ w ∉ s.waitq
   -- no stranded job: while somebody sleeps un-notified, every queued job is matched by a worker that will look at the queue
   a_nd : s.exit = false → s.awake.Nodup
-  a_mem : s.exit = false → ∀ t, t ∈ s.awake ↔ (s.woken t = true ∨ s.pc t = Pc.wLoop)
+  a_mem : s.exit = false → ∀ t, t ∈ s.awake ↔ (s.woken t = true ∨ s.pc t = Pc.wLoop ∨ s.pc t = Pc.wRelock)
   a_len : s.exit = false → s.waitq ≠ [] → s.q.length ≤ s.awake.length
+  -- the pool mutex: only a worker at its loop head keeps it across a step; nothing changes under its feet
+  m_own : ∀ t, s.mx = some t ↔ (s.pc t = Pc.wLoop ∨ s.pc t = Pc.wCvEnter)
+  m_enter : ∀ t, s.pc t = Pc.wCvEnter → s.q = [] ∧ s.exit = false
   n_noexit : s.exit = false → ∀ t, (s.pc t).inStop = false ∧ s.pc t ≠ Pc.wExit ∧ (t < c.nw → s.pc t ≠ Pc.done)
                 ∧ s.detached t = false
   -- stop(): joins
@@ -153,24 +158,25 @@ macro "inv_step" h:ident : tactic => `(tactic| (
   case wf_out => exact ($h).wf_out
   case wf_nw => exact ($h).wf_nw
   case wf_nt => exact ($h).wf_nt
-  case' t_out => (have hf_ := ($h).t_out; inv_simp; try (first | exact hf_ | inv_grind | (have hg0_ := ($h).t_worker; have hg1_ := ($h).t_ret; have hg2_ := ($h).t_script; have hg3_ := ($h).t_noB; have hg4_ := ($h).t_enq; have hg5_ := ($h).n_noexit; have hg6_ := ($h).wf_nt; inv_grind) | (have hh_ := $h; cases hh_; inv_grind)))
-  case' t_worker => (have hf_ := ($h).t_worker; inv_simp; try (first | exact hf_ | inv_grind | (have hg0_ := ($h).t_out; have hg1_ := ($h).t_ret; have hg2_ := ($h).t_script; have hg3_ := ($h).t_noB; have hg4_ := ($h).t_enq; have hg5_ := ($h).n_noexit; have hg6_ := ($h).wf_nt; inv_grind) | (have hh_ := $h; cases hh_; inv_grind)))
-  case' t_ret => (have hf_ := ($h).t_ret; inv_simp; try (first | exact hf_ | inv_grind | (have hg0_ := ($h).t_out; have hg1_ := ($h).t_worker; have hg2_ := ($h).t_script; have hg3_ := ($h).t_noB; have hg4_ := ($h).t_enq; have hg5_ := ($h).n_noexit; have hg6_ := ($h).wf_nt; inv_grind) | (have hh_ := $h; cases hh_; inv_grind)))
-  case' t_script => (have hf_ := ($h).t_script; inv_simp; try (first | exact hf_ | inv_grind | (have hg0_ := ($h).t_out; have hg1_ := ($h).t_worker; have hg2_ := ($h).t_ret; have hg3_ := ($h).t_noB; have hg4_ := ($h).t_enq; have hg5_ := ($h).n_noexit; have hg6_ := ($h).wf_nt; inv_grind) | (have hh_ := $h; cases hh_; inv_grind)))
-  case' t_noB => (have hf_ := ($h).t_noB; inv_simp; try (first | exact hf_ | inv_grind | (have hg0_ := ($h).t_out; have hg1_ := ($h).t_worker; have hg2_ := ($h).t_ret; have hg3_ := ($h).t_script; have hg4_ := ($h).t_enq; have hg5_ := ($h).n_noexit; have hg6_ := ($h).wf_nt; inv_grind) | (have hh_ := $h; cases hh_; inv_grind)))
-  case' t_enq => (have hf_ := ($h).t_enq; inv_simp; try (first | exact hf_ | inv_grind | (have hg0_ := ($h).l_q; have hg1_ := ($h).l_qnd; have hg2_ := ($h).l_held; have hg3_ := ($h).l_rej; have hg4_ := ($h).l_swap; have hg5_ := ($h).l_dqnd; have hg6_ := ($h).l_dqpc; have hg7_ := ($h).l_fresh; have hg8_ := ($h).c_once; have hg9_ := ($h).z_fresh; have hg10_ := ($h).r_on; have hg11_ := ($h).r_job; inv_grind) | (have hh_ := $h; cases hh_; inv_grind)))
-  case' l_q => (have hf_ := ($h).l_q; inv_simp; try (first | exact hf_ | inv_grind | (have hg0_ := ($h).t_enq; have hg1_ := ($h).l_qnd; have hg2_ := ($h).l_held; have hg3_ := ($h).l_rej; have hg4_ := ($h).l_swap; have hg5_ := ($h).l_dqnd; have hg6_ := ($h).l_dqpc; have hg7_ := ($h).l_fresh; have hg8_ := ($h).c_once; have hg9_ := ($h).z_fresh; have hg10_ := ($h).r_on; have hg11_ := ($h).r_job; inv_grind) | (have hh_ := $h; cases hh_; inv_grind)))
-  case' l_qnd => (have hf_ := ($h).l_qnd; inv_simp; try (first | exact hf_ | inv_grind | (have hg0_ := ($h).t_enq; have hg1_ := ($h).l_q; have hg2_ := ($h).l_held; have hg3_ := ($h).l_rej; have hg4_ := ($h).l_swap; have hg5_ := ($h).l_dqnd; have hg6_ := ($h).l_dqpc; have hg7_ := ($h).l_fresh; have hg8_ := ($h).c_once; have hg9_ := ($h).z_fresh; have hg10_ := ($h).r_on; have hg11_ := ($h).r_job; inv_grind) | (have hh_ := $h; cases hh_; inv_grind)))
-  case' l_held => (have hf_ := ($h).l_held; inv_simp; try (first | exact hf_ | inv_grind | (have hg0_ := ($h).t_enq; have hg1_ := ($h).l_q; have hg2_ := ($h).l_qnd; have hg3_ := ($h).l_rej; have hg4_ := ($h).l_swap; have hg5_ := ($h).l_dqnd; have hg6_ := ($h).l_dqpc; have hg7_ := ($h).l_fresh; have hg8_ := ($h).c_once; have hg9_ := ($h).z_fresh; have hg10_ := ($h).r_on; have hg11_ := ($h).r_job; inv_grind) | (have hh_ := $h; cases hh_; inv_grind)))
-  case' l_rej => (have hf_ := ($h).l_rej; inv_simp; try (first | exact hf_ | inv_grind | (have hg0_ := ($h).t_enq; have hg1_ := ($h).l_q; have hg2_ := ($h).l_qnd; have hg3_ := ($h).l_held; have hg4_ := ($h).l_swap; have hg5_ := ($h).l_dqnd; have hg6_ := ($h).l_dqpc; have hg7_ := ($h).l_fresh; have hg8_ := ($h).c_once; have hg9_ := ($h).z_fresh; have hg10_ := ($h).r_on; have hg11_ := ($h).r_job; inv_grind) | (have hh_ := $h; cases hh_; inv_grind)))
-  case' l_swap => (have hf_ := ($h).l_swap; inv_simp; try (first | exact hf_ | inv_grind | (have hg0_ := ($h).t_enq; have hg1_ := ($h).l_q; have hg2_ := ($h).l_qnd; have hg3_ := ($h).l_held; have hg4_ := ($h).l_rej; have hg5_ := ($h).l_dqnd; have hg6_ := ($h).l_dqpc; have hg7_ := ($h).l_fresh; have hg8_ := ($h).c_once; have hg9_ := ($h).z_fresh; have hg10_ := ($h).r_on; have hg11_ := ($h).r_job; inv_grind) | (have hh_ := $h; cases hh_; inv_grind)))
-  case' l_dqnd => (have hf_ := ($h).l_dqnd; inv_simp; try (first | exact hf_ | inv_grind | (have hg0_ := ($h).t_enq; have hg1_ := ($h).l_q; have hg2_ := ($h).l_qnd; have hg3_ := ($h).l_held; have hg4_ := ($h).l_rej; have hg5_ := ($h).l_swap; have hg6_ := ($h).l_dqpc; have hg7_ := ($h).l_fresh; have hg8_ := ($h).c_once; have hg9_ := ($h).z_fresh; have hg10_ := ($h).r_on; have hg11_ := ($h).r_job; inv_grind) | (have hh_ := $h; cases hh_; inv_grind)))
-  case' l_dqpc => (have hf_ := ($h).l_dqpc; inv_simp; try (first | exact hf_ | inv_grind | (have hg0_ := ($h).t_enq; have hg1_ := ($h).l_q; have hg2_ := ($h).l_qnd; have hg3_ := ($h).l_held; have hg4_ := ($h).l_rej; have hg5_ := ($h).l_swap; have hg6_ := ($h).l_dqnd; have hg7_ := ($h).l_fresh; have hg8_ := ($h).c_once; have hg9_ := ($h).z_fresh; have hg10_ := ($h).r_on; have hg11_ := ($h).r_job; inv_grind) | (have hh_ := $h; cases hh_; inv_grind)))
-  case' l_fresh => (have hf_ := ($h).l_fresh; inv_simp; try (first | exact hf_ | inv_grind | (have hg0_ := ($h).t_enq; have hg1_ := ($h).l_q; have hg2_ := ($h).l_qnd; have hg3_ := ($h).l_held; have hg4_ := ($h).l_rej; have hg5_ := ($h).l_swap; have hg6_ := ($h).l_dqnd; have hg7_ := ($h).l_dqpc; have hg8_ := ($h).c_once; have hg9_ := ($h).z_fresh; have hg10_ := ($h).r_on; have hg11_ := ($h).r_job; inv_grind) | (have hh_ := $h; cases hh_; inv_grind)))
-  case' c_once => (have hf_ := ($h).c_once; inv_simp; try (first | exact hf_ | inv_grind | (have hg0_ := ($h).t_enq; have hg1_ := ($h).l_q; have hg2_ := ($h).l_qnd; have hg3_ := ($h).l_held; have hg4_ := ($h).l_rej; have hg5_ := ($h).l_swap; have hg6_ := ($h).l_dqnd; have hg7_ := ($h).l_dqpc; have hg8_ := ($h).l_fresh; have hg9_ := ($h).z_fresh; have hg10_ := ($h).r_on; have hg11_ := ($h).r_job; inv_grind) | (have hh_ := $h; cases hh_; inv_grind)))
-  case' z_fresh => (have hf_ := ($h).z_fresh; inv_simp; try (first | exact hf_ | inv_grind | (have hg0_ := ($h).t_enq; have hg1_ := ($h).l_q; have hg2_ := ($h).l_qnd; have hg3_ := ($h).l_held; have hg4_ := ($h).l_rej; have hg5_ := ($h).l_swap; have hg6_ := ($h).l_dqnd; have hg7_ := ($h).l_dqpc; have hg8_ := ($h).l_fresh; have hg9_ := ($h).c_once; have hg10_ := ($h).r_on; have hg11_ := ($h).r_job; inv_grind) | (have hh_ := $h; cases hh_; inv_grind)))
-  case' r_on => (have hf_ := ($h).r_on; inv_simp; try (first | exact hf_ | inv_grind | (have hg0_ := ($h).t_enq; have hg1_ := ($h).l_q; have hg2_ := ($h).l_qnd; have hg3_ := ($h).l_held; have hg4_ := ($h).l_rej; have hg5_ := ($h).l_swap; have hg6_ := ($h).l_dqnd; have hg7_ := ($h).l_dqpc; have hg8_ := ($h).l_fresh; have hg9_ := ($h).c_once; have hg10_ := ($h).z_fresh; have hg11_ := ($h).r_job; inv_grind) | (have hh_ := $h; cases hh_; inv_grind)))
-  case' r_job => (have hf_ := ($h).r_job; inv_simp; try (first | exact hf_ | inv_grind | (have hg0_ := ($h).t_enq; have hg1_ := ($h).l_q; have hg2_ := ($h).l_qnd; have hg3_ := ($h).l_held; have hg4_ := ($h).l_rej; have hg5_ := ($h).l_swap; have hg6_ := ($h).l_dqnd; have hg7_ := ($h).l_dqpc; have hg8_ := ($h).l_fresh; have hg9_ := ($h).c_once; have hg10_ := ($h).z_fresh; have hg11_ := ($h).r_on; inv_grind) | (have hh_ := $h; cases hh_; inv_grind)))
+  case' t_out => (have hf_ := ($h).t_out; inv_simp; try (first | exact hf_ | inv_grind | (have hg0_ := ($h).t_worker; have hg1_ := ($h).t_ret; have hg2_ := ($h).t_script; have hg3_ := ($h).t_noB; have hg4_ := ($h).t_enq; have hg5_ := ($h).t_enq2; have hg6_ := ($h).n_noexit; have hg7_ := ($h).wf_nt; inv_grind) | (have hh_ := $h; cases hh_; inv_grind)))
+  case' t_worker => (have hf_ := ($h).t_worker; inv_simp; try (first | exact hf_ | inv_grind | (have hg0_ := ($h).t_out; have hg1_ := ($h).t_ret; have hg2_ := ($h).t_script; have hg3_ := ($h).t_noB; have hg4_ := ($h).t_enq; have hg5_ := ($h).t_enq2; have hg6_ := ($h).n_noexit; have hg7_ := ($h).wf_nt; inv_grind) | (have hh_ := $h; cases hh_; inv_grind)))
+  case' t_ret => (have hf_ := ($h).t_ret; inv_simp; try (first | exact hf_ | inv_grind | (have hg0_ := ($h).t_out; have hg1_ := ($h).t_worker; have hg2_ := ($h).t_script; have hg3_ := ($h).t_noB; have hg4_ := ($h).t_enq; have hg5_ := ($h).t_enq2; have hg6_ := ($h).n_noexit; have hg7_ := ($h).wf_nt; inv_grind) | (have hh_ := $h; cases hh_; inv_grind)))
+  case' t_script => (have hf_ := ($h).t_script; inv_simp; try (first | exact hf_ | inv_grind | (have hg0_ := ($h).t_out; have hg1_ := ($h).t_worker; have hg2_ := ($h).t_ret; have hg3_ := ($h).t_noB; have hg4_ := ($h).t_enq; have hg5_ := ($h).t_enq2; have hg6_ := ($h).n_noexit; have hg7_ := ($h).wf_nt; inv_grind) | (have hh_ := $h; cases hh_; inv_grind)))
+  case' t_noB => (have hf_ := ($h).t_noB; inv_simp; try (first | exact hf_ | inv_grind | (have hg0_ := ($h).t_out; have hg1_ := ($h).t_worker; have hg2_ := ($h).t_ret; have hg3_ := ($h).t_script; have hg4_ := ($h).t_enq; have hg5_ := ($h).t_enq2; have hg6_ := ($h).n_noexit; have hg7_ := ($h).wf_nt; inv_grind) | (have hh_ := $h; cases hh_; inv_grind)))
+  case' t_enq => (have hf_ := ($h).t_enq; inv_simp; try (first | exact hf_ | inv_grind | (have hg0_ := ($h).t_enq2; have hg1_ := ($h).l_q; have hg2_ := ($h).l_qnd; have hg3_ := ($h).l_held; have hg4_ := ($h).l_rej; have hg5_ := ($h).l_swap; have hg6_ := ($h).l_dqnd; have hg7_ := ($h).l_dqpc; have hg8_ := ($h).l_fresh; have hg9_ := ($h).c_once; have hg10_ := ($h).z_fresh; have hg11_ := ($h).r_on; have hg12_ := ($h).r_job; inv_grind) | (have hh_ := $h; cases hh_; inv_grind)))
+  case' t_enq2 => (have hf_ := ($h).t_enq2; inv_simp; try (first | exact hf_ | inv_grind | (have hg0_ := ($h).t_enq; have hg1_ := ($h).l_q; have hg2_ := ($h).l_qnd; have hg3_ := ($h).l_held; have hg4_ := ($h).l_rej; have hg5_ := ($h).l_swap; have hg6_ := ($h).l_dqnd; have hg7_ := ($h).l_dqpc; have hg8_ := ($h).l_fresh; have hg9_ := ($h).c_once; have hg10_ := ($h).z_fresh; have hg11_ := ($h).r_on; have hg12_ := ($h).r_job; inv_grind) | (have hh_ := $h; cases hh_; inv_grind)))
+  case' l_q => (have hf_ := ($h).l_q; inv_simp; try (first | exact hf_ | inv_grind | (have hg0_ := ($h).t_enq; have hg1_ := ($h).t_enq2; have hg2_ := ($h).l_qnd; have hg3_ := ($h).l_held; have hg4_ := ($h).l_rej; have hg5_ := ($h).l_swap; have hg6_ := ($h).l_dqnd; have hg7_ := ($h).l_dqpc; have hg8_ := ($h).l_fresh; have hg9_ := ($h).c_once; have hg10_ := ($h).z_fresh; have hg11_ := ($h).r_on; have hg12_ := ($h).r_job; inv_grind) | (have hh_ := $h; cases hh_; inv_grind)))
+  case' l_qnd => (have hf_ := ($h).l_qnd; inv_simp; try (first | exact hf_ | inv_grind | (have hg0_ := ($h).t_enq; have hg1_ := ($h).t_enq2; have hg2_ := ($h).l_q; have hg3_ := ($h).l_held; have hg4_ := ($h).l_rej; have hg5_ := ($h).l_swap; have hg6_ := ($h).l_dqnd; have hg7_ := ($h).l_dqpc; have hg8_ := ($h).l_fresh; have hg9_ := ($h).c_once; have hg10_ := ($h).z_fresh; have hg11_ := ($h).r_on; have hg12_ := ($h).r_job; inv_grind) | (have hh_ := $h; cases hh_; inv_grind)))
+  case' l_held => (have hf_ := ($h).l_held; inv_simp; try (first | exact hf_ | inv_grind | (have hg0_ := ($h).t_enq; have hg1_ := ($h).t_enq2; have hg2_ := ($h).l_q; have hg3_ := ($h).l_qnd; have hg4_ := ($h).l_rej; have hg5_ := ($h).l_swap; have hg6_ := ($h).l_dqnd; have hg7_ := ($h).l_dqpc; have hg8_ := ($h).l_fresh; have hg9_ := ($h).c_once; have hg10_ := ($h).z_fresh; have hg11_ := ($h).r_on; have hg12_ := ($h).r_job; inv_grind) | (have hh_ := $h; cases hh_; inv_grind)))
+  case' l_rej => (have hf_ := ($h).l_rej; inv_simp; try (first | exact hf_ | inv_grind | (have hg0_ := ($h).t_enq; have hg1_ := ($h).t_enq2; have hg2_ := ($h).l_q; have hg3_ := ($h).l_qnd; have hg4_ := ($h).l_held; have hg5_ := ($h).l_swap; have hg6_ := ($h).l_dqnd; have hg7_ := ($h).l_dqpc; have hg8_ := ($h).l_fresh; have hg9_ := ($h).c_once; have hg10_ := ($h).z_fresh; have hg11_ := ($h).r_on; have hg12_ := ($h).r_job; inv_grind) | (have hh_ := $h; cases hh_; inv_grind)))
+  case' l_swap => (have hf_ := ($h).l_swap; inv_simp; try (first | exact hf_ | inv_grind | (have hg0_ := ($h).t_enq; have hg1_ := ($h).t_enq2; have hg2_ := ($h).l_q; have hg3_ := ($h).l_qnd; have hg4_ := ($h).l_held; have hg5_ := ($h).l_rej; have hg6_ := ($h).l_dqnd; have hg7_ := ($h).l_dqpc; have hg8_ := ($h).l_fresh; have hg9_ := ($h).c_once; have hg10_ := ($h).z_fresh; have hg11_ := ($h).r_on; have hg12_ := ($h).r_job; inv_grind) | (have hh_ := $h; cases hh_; inv_grind)))
+  case' l_dqnd => (have hf_ := ($h).l_dqnd; inv_simp; try (first | exact hf_ | inv_grind | (have hg0_ := ($h).t_enq; have hg1_ := ($h).t_enq2; have hg2_ := ($h).l_q; have hg3_ := ($h).l_qnd; have hg4_ := ($h).l_held; have hg5_ := ($h).l_rej; have hg6_ := ($h).l_swap; have hg7_ := ($h).l_dqpc; have hg8_ := ($h).l_fresh; have hg9_ := ($h).c_once; have hg10_ := ($h).z_fresh; have hg11_ := ($h).r_on; have hg12_ := ($h).r_job; inv_grind) | (have hh_ := $h; cases hh_; inv_grind)))
+  case' l_dqpc => (have hf_ := ($h).l_dqpc; inv_simp; try (first | exact hf_ | inv_grind | (have hg0_ := ($h).t_enq; have hg1_ := ($h).t_enq2; have hg2_ := ($h).l_q; have hg3_ := ($h).l_qnd; have hg4_ := ($h).l_held; have hg5_ := ($h).l_rej; have hg6_ := ($h).l_swap; have hg7_ := ($h).l_dqnd; have hg8_ := ($h).l_fresh; have hg9_ := ($h).c_once; have hg10_ := ($h).z_fresh; have hg11_ := ($h).r_on; have hg12_ := ($h).r_job; inv_grind) | (have hh_ := $h; cases hh_; inv_grind)))
+  case' l_fresh => (have hf_ := ($h).l_fresh; inv_simp; try (first | exact hf_ | inv_grind | (have hg0_ := ($h).t_enq; have hg1_ := ($h).t_enq2; have hg2_ := ($h).l_q; have hg3_ := ($h).l_qnd; have hg4_ := ($h).l_held; have hg5_ := ($h).l_rej; have hg6_ := ($h).l_swap; have hg7_ := ($h).l_dqnd; have hg8_ := ($h).l_dqpc; have hg9_ := ($h).c_once; have hg10_ := ($h).z_fresh; have hg11_ := ($h).r_on; have hg12_ := ($h).r_job; inv_grind) | (have hh_ := $h; cases hh_; inv_grind)))
+  case' c_once => (have hf_ := ($h).c_once; inv_simp; try (first | exact hf_ | inv_grind | (have hg0_ := ($h).t_enq; have hg1_ := ($h).t_enq2; have hg2_ := ($h).l_q; have hg3_ := ($h).l_qnd; have hg4_ := ($h).l_held; have hg5_ := ($h).l_rej; have hg6_ := ($h).l_swap; have hg7_ := ($h).l_dqnd; have hg8_ := ($h).l_dqpc; have hg9_ := ($h).l_fresh; have hg10_ := ($h).z_fresh; have hg11_ := ($h).r_on; have hg12_ := ($h).r_job; inv_grind) | (have hh_ := $h; cases hh_; inv_grind)))
+  case' z_fresh => (have hf_ := ($h).z_fresh; inv_simp; try (first | exact hf_ | inv_grind | (have hg0_ := ($h).t_enq; have hg1_ := ($h).t_enq2; have hg2_ := ($h).l_q; have hg3_ := ($h).l_qnd; have hg4_ := ($h).l_held; have hg5_ := ($h).l_rej; have hg6_ := ($h).l_swap; have hg7_ := ($h).l_dqnd; have hg8_ := ($h).l_dqpc; have hg9_ := ($h).l_fresh; have hg10_ := ($h).c_once; have hg11_ := ($h).r_on; have hg12_ := ($h).r_job; inv_grind) | (have hh_ := $h; cases hh_; inv_grind)))
+  case' r_on => (have hf_ := ($h).r_on; inv_simp; try (first | exact hf_ | inv_grind | (have hg0_ := ($h).t_enq; have hg1_ := ($h).t_enq2; have hg2_ := ($h).l_q; have hg3_ := ($h).l_qnd; have hg4_ := ($h).l_held; have hg5_ := ($h).l_rej; have hg6_ := ($h).l_swap; have hg7_ := ($h).l_dqnd; have hg8_ := ($h).l_dqpc; have hg9_ := ($h).l_fresh; have hg10_ := ($h).c_once; have hg11_ := ($h).z_fresh; have hg12_ := ($h).r_job; inv_grind) | (have hh_ := $h; cases hh_; inv_grind)))
+  case' r_job => (have hf_ := ($h).r_job; inv_simp; try (first | exact hf_ | inv_grind | (have hg0_ := ($h).t_enq; have hg1_ := ($h).t_enq2; have hg2_ := ($h).l_q; have hg3_ := ($h).l_qnd; have hg4_ := ($h).l_held; have hg5_ := ($h).l_rej; have hg6_ := ($h).l_swap; have hg7_ := ($h).l_dqnd; have hg8_ := ($h).l_dqpc; have hg9_ := ($h).l_fresh; have hg10_ := ($h).c_once; have hg11_ := ($h).z_fresh; have hg12_ := ($h).r_on; inv_grind) | (have hh_ := $h; cases hh_; inv_grind)))
   case' x_exit_q => (have hf_ := ($h).x_exit_q; inv_simp; try (first | exact hf_ | inv_grind | (have hg0_ := ($h).x_rej_exit; have hg1_ := ($h).x_drop_exit; have hg2_ := ($h).b_co; have hg3_ := ($h).b_defer; have hg4_ := ($h).b_defnd; have hg5_ := ($h).b_defpc; have hg6_ := ($h).b_defkind; have hg7_ := ($h).b_guard; have hg8_ := ($h).b_none; have hg9_ := ($h).b_lost; have hg10_ := ($h).b_fut; have hg11_ := ($h).f_brk; have hg12_ := ($h).c_once; have hg13_ := ($h).l_rej; have hg14_ := ($h).l_swap; have hg15_ := ($h).z_fresh; have hg16_ := ($h).n_noexit; inv_grind) | (have hh_ := $h; cases hh_; inv_grind)))
   case' x_rej_exit => (have hf_ := ($h).x_rej_exit; inv_simp; try (first | exact hf_ | inv_grind | (have hg0_ := ($h).x_exit_q; have hg1_ := ($h).x_drop_exit; have hg2_ := ($h).b_co; have hg3_ := ($h).b_defer; have hg4_ := ($h).b_defnd; have hg5_ := ($h).b_defpc; have hg6_ := ($h).b_defkind; have hg7_ := ($h).b_guard; have hg8_ := ($h).b_none; have hg9_ := ($h).b_lost; have hg10_ := ($h).b_fut; have hg11_ := ($h).f_brk; have hg12_ := ($h).c_once; have hg13_ := ($h).l_rej; have hg14_ := ($h).l_swap; have hg15_ := ($h).z_fresh; have hg16_ := ($h).n_noexit; inv_grind) | (have hh_ := $h; cases hh_; inv_grind)))
   case' x_drop_exit => (have hf_ := ($h).x_drop_exit; inv_simp; try (first | exact hf_ | inv_grind | (have hg0_ := ($h).x_exit_q; have hg1_ := ($h).x_rej_exit; have hg2_ := ($h).b_co; have hg3_ := ($h).b_defer; have hg4_ := ($h).b_defnd; have hg5_ := ($h).b_defpc; have hg6_ := ($h).b_defkind; have hg7_ := ($h).b_guard; have hg8_ := ($h).b_none; have hg9_ := ($h).b_lost; have hg10_ := ($h).b_fut; have hg11_ := ($h).f_brk; have hg12_ := ($h).c_once; have hg13_ := ($h).l_rej; have hg14_ := ($h).l_swap; have hg15_ := ($h).z_fresh; have hg16_ := ($h).n_noexit; inv_grind) | (have hh_ := $h; cases hh_; inv_grind)))
@@ -183,24 +189,27 @@ macro "inv_step" h:ident : tactic => `(tactic| (
   case' b_none => (have hf_ := ($h).b_none; inv_simp; try (first | exact hf_ | inv_grind | (have hg0_ := ($h).x_exit_q; have hg1_ := ($h).x_rej_exit; have hg2_ := ($h).x_drop_exit; have hg3_ := ($h).b_co; have hg4_ := ($h).b_defer; have hg5_ := ($h).b_defnd; have hg6_ := ($h).b_defpc; have hg7_ := ($h).b_defkind; have hg8_ := ($h).b_guard; have hg9_ := ($h).b_lost; have hg10_ := ($h).b_fut; have hg11_ := ($h).f_brk; have hg12_ := ($h).c_once; have hg13_ := ($h).l_rej; have hg14_ := ($h).l_swap; have hg15_ := ($h).z_fresh; have hg16_ := ($h).n_noexit; inv_grind) | (have hh_ := $h; cases hh_; inv_grind)))
   case' b_lost => (have hf_ := ($h).b_lost; inv_simp; try (first | exact hf_ | inv_grind | (have hg0_ := ($h).x_exit_q; have hg1_ := ($h).x_rej_exit; have hg2_ := ($h).x_drop_exit; have hg3_ := ($h).b_co; have hg4_ := ($h).b_defer; have hg5_ := ($h).b_defnd; have hg6_ := ($h).b_defpc; have hg7_ := ($h).b_defkind; have hg8_ := ($h).b_guard; have hg9_ := ($h).b_none; have hg10_ := ($h).b_fut; have hg11_ := ($h).f_brk; have hg12_ := ($h).c_once; have hg13_ := ($h).l_rej; have hg14_ := ($h).l_swap; have hg15_ := ($h).z_fresh; have hg16_ := ($h).n_noexit; inv_grind) | (have hh_ := $h; cases hh_; inv_grind)))
   case' b_fut => (have hf_ := ($h).b_fut; inv_simp; try (first | exact hf_ | inv_grind | (have hg0_ := ($h).x_exit_q; have hg1_ := ($h).x_rej_exit; have hg2_ := ($h).x_drop_exit; have hg3_ := ($h).b_co; have hg4_ := ($h).b_defer; have hg5_ := ($h).b_defnd; have hg6_ := ($h).b_defpc; have hg7_ := ($h).b_defkind; have hg8_ := ($h).b_guard; have hg9_ := ($h).b_none; have hg10_ := ($h).b_lost; have hg11_ := ($h).f_brk; have hg12_ := ($h).c_once; have hg13_ := ($h).l_rej; have hg14_ := ($h).l_swap; have hg15_ := ($h).z_fresh; have hg16_ := ($h).n_noexit; inv_grind) | (have hh_ := $h; cases hh_; inv_grind)))
-  case' f_own => (have hf_ := ($h).f_own; inv_simp; try (first | exact hf_ | inv_grind | (have hg0_ := ($h).f_arm; have hg1_ := ($h).f_broken; have hg2_ := ($h).f_brk; have hg3_ := ($h).f_some; have hg4_ := ($h).f_valued; have hg5_ := ($h).f_value; have hg6_ := ($h).f_pending; have hg7_ := ($h).b_fut; have hg8_ := ($h).z_fresh; have hg9_ := ($h).c_once; have hg10_ := ($h).t_enq; have hg11_ := ($h).r_job; have hg12_ := ($h).l_rej; have hg13_ := ($h).l_swap; inv_grind) | (have hh_ := $h; cases hh_; inv_grind)))
-  case' f_arm => (have hf_ := ($h).f_arm; inv_simp; try (first | exact hf_ | inv_grind | (have hg0_ := ($h).f_own; have hg1_ := ($h).f_broken; have hg2_ := ($h).f_brk; have hg3_ := ($h).f_some; have hg4_ := ($h).f_valued; have hg5_ := ($h).f_value; have hg6_ := ($h).f_pending; have hg7_ := ($h).b_fut; have hg8_ := ($h).z_fresh; have hg9_ := ($h).c_once; have hg10_ := ($h).t_enq; have hg11_ := ($h).r_job; have hg12_ := ($h).l_rej; have hg13_ := ($h).l_swap; inv_grind) | (have hh_ := $h; cases hh_; inv_grind)))
-  case' f_broken => (have hf_ := ($h).f_broken; inv_simp; try (first | exact hf_ | inv_grind | (have hg0_ := ($h).f_own; have hg1_ := ($h).f_arm; have hg2_ := ($h).f_brk; have hg3_ := ($h).f_some; have hg4_ := ($h).f_valued; have hg5_ := ($h).f_value; have hg6_ := ($h).f_pending; have hg7_ := ($h).b_fut; have hg8_ := ($h).z_fresh; have hg9_ := ($h).c_once; have hg10_ := ($h).t_enq; have hg11_ := ($h).r_job; have hg12_ := ($h).l_rej; have hg13_ := ($h).l_swap; inv_grind) | (have hh_ := $h; cases hh_; inv_grind)))
-  case' f_brk => (have hf_ := ($h).f_brk; inv_simp; try (first | exact hf_ | inv_grind | (have hg0_ := ($h).f_own; have hg1_ := ($h).f_arm; have hg2_ := ($h).f_broken; have hg3_ := ($h).f_some; have hg4_ := ($h).f_valued; have hg5_ := ($h).f_value; have hg6_ := ($h).f_pending; have hg7_ := ($h).b_fut; have hg8_ := ($h).z_fresh; have hg9_ := ($h).c_once; have hg10_ := ($h).t_enq; have hg11_ := ($h).r_job; have hg12_ := ($h).l_rej; have hg13_ := ($h).l_swap; inv_grind) | (have hh_ := $h; cases hh_; inv_grind)))
-  case' f_some => (have hf_ := ($h).f_some; inv_simp; try (first | exact hf_ | inv_grind | (have hg0_ := ($h).f_own; have hg1_ := ($h).f_arm; have hg2_ := ($h).f_broken; have hg3_ := ($h).f_brk; have hg4_ := ($h).f_valued; have hg5_ := ($h).f_value; have hg6_ := ($h).f_pending; have hg7_ := ($h).b_fut; have hg8_ := ($h).z_fresh; have hg9_ := ($h).c_once; have hg10_ := ($h).t_enq; have hg11_ := ($h).r_job; have hg12_ := ($h).l_rej; have hg13_ := ($h).l_swap; inv_grind) | (have hh_ := $h; cases hh_; inv_grind)))
-  case' f_valued => (have hf_ := ($h).f_valued; inv_simp; try (first | exact hf_ | inv_grind | (have hg0_ := ($h).f_own; have hg1_ := ($h).f_arm; have hg2_ := ($h).f_broken; have hg3_ := ($h).f_brk; have hg4_ := ($h).f_some; have hg5_ := ($h).f_value; have hg6_ := ($h).f_pending; have hg7_ := ($h).b_fut; have hg8_ := ($h).z_fresh; have hg9_ := ($h).c_once; have hg10_ := ($h).t_enq; have hg11_ := ($h).r_job; have hg12_ := ($h).l_rej; have hg13_ := ($h).l_swap; inv_grind) | (have hh_ := $h; cases hh_; inv_grind)))
-  case' f_value => (have hf_ := ($h).f_value; inv_simp; try (first | exact hf_ | inv_grind | (have hg0_ := ($h).f_own; have hg1_ := ($h).f_arm; have hg2_ := ($h).f_broken; have hg3_ := ($h).f_brk; have hg4_ := ($h).f_some; have hg5_ := ($h).f_valued; have hg6_ := ($h).f_pending; have hg7_ := ($h).b_fut; have hg8_ := ($h).z_fresh; have hg9_ := ($h).c_once; have hg10_ := ($h).t_enq; have hg11_ := ($h).r_job; have hg12_ := ($h).l_rej; have hg13_ := ($h).l_swap; inv_grind) | (have hh_ := $h; cases hh_; inv_grind)))
-  case' f_pending => (have hf_ := ($h).f_pending; inv_simp; try (first | exact hf_ | inv_grind | (have hg0_ := ($h).f_own; have hg1_ := ($h).f_arm; have hg2_ := ($h).f_broken; have hg3_ := ($h).f_brk; have hg4_ := ($h).f_some; have hg5_ := ($h).f_valued; have hg6_ := ($h).f_value; have hg7_ := ($h).b_fut; have hg8_ := ($h).z_fresh; have hg9_ := ($h).c_once; have hg10_ := ($h).t_enq; have hg11_ := ($h).r_job; have hg12_ := ($h).l_rej; have hg13_ := ($h).l_swap; inv_grind) | (have hh_ := $h; cases hh_; inv_grind)))
-  case' s_exit_wq => (have hf_ := ($h).s_exit_wq; inv_simp; try (first | exact hf_ | inv_grind | (have hg0_ := ($h).s_wqnd; have hg1_ := ($h).s_wq_pc; have hg2_ := ($h).s_woken; have hg3_ := ($h).s_cv; have hg4_ := ($h).n_wake; have hg5_ := ($h).a_nd; have hg6_ := ($h).a_mem; have hg7_ := ($h).a_len; have hg8_ := ($h).n_noexit; have hg9_ := ($h).t_worker; have hg10_ := ($h).wf_nw; inv_grind) | (have hh_ := $h; cases hh_; inv_grind)))
-  case' s_wqnd => (have hf_ := ($h).s_wqnd; inv_simp; try (first | exact hf_ | inv_grind | (have hg0_ := ($h).s_exit_wq; have hg1_ := ($h).s_wq_pc; have hg2_ := ($h).s_woken; have hg3_ := ($h).s_cv; have hg4_ := ($h).n_wake; have hg5_ := ($h).a_nd; have hg6_ := ($h).a_mem; have hg7_ := ($h).a_len; have hg8_ := ($h).n_noexit; have hg9_ := ($h).t_worker; have hg10_ := ($h).wf_nw; inv_grind) | (have hh_ := $h; cases hh_; inv_grind)))
-  case' s_wq_pc => (have hf_ := ($h).s_wq_pc; inv_simp; try (first | exact hf_ | inv_grind | (have hg0_ := ($h).s_exit_wq; have hg1_ := ($h).s_wqnd; have hg2_ := ($h).s_woken; have hg3_ := ($h).s_cv; have hg4_ := ($h).n_wake; have hg5_ := ($h).a_nd; have hg6_ := ($h).a_mem; have hg7_ := ($h).a_len; have hg8_ := ($h).n_noexit; have hg9_ := ($h).t_worker; have hg10_ := ($h).wf_nw; inv_grind) | (have hh_ := $h; cases hh_; inv_grind)))
-  case' s_woken => (have hf_ := ($h).s_woken; inv_simp; try (first | exact hf_ | inv_grind | (have hg0_ := ($h).s_exit_wq; have hg1_ := ($h).s_wqnd; have hg2_ := ($h).s_wq_pc; have hg3_ := ($h).s_cv; have hg4_ := ($h).n_wake; have hg5_ := ($h).a_nd; have hg6_ := ($h).a_mem; have hg7_ := ($h).a_len; have hg8_ := ($h).n_noexit; have hg9_ := ($h).t_worker; have hg10_ := ($h).wf_nw; inv_grind) | (have hh_ := $h; cases hh_; inv_grind)))
-  case' s_cv => (have hf_ := ($h).s_cv; inv_simp; try (first | exact hf_ | inv_grind | (have hg0_ := ($h).s_exit_wq; have hg1_ := ($h).s_wqnd; have hg2_ := ($h).s_wq_pc; have hg3_ := ($h).s_woken; have hg4_ := ($h).n_wake; have hg5_ := ($h).a_nd; have hg6_ := ($h).a_mem; have hg7_ := ($h).a_len; have hg8_ := ($h).n_noexit; have hg9_ := ($h).t_worker; have hg10_ := ($h).wf_nw; inv_grind) | (have hh_ := $h; cases hh_; inv_grind)))
-  case' n_wake => (have hf_ := ($h).n_wake; inv_simp; try (first | exact hf_ | inv_grind | (have hg0_ := ($h).s_exit_wq; have hg1_ := ($h).s_wqnd; have hg2_ := ($h).s_wq_pc; have hg3_ := ($h).s_woken; have hg4_ := ($h).s_cv; have hg5_ := ($h).a_nd; have hg6_ := ($h).a_mem; have hg7_ := ($h).a_len; have hg8_ := ($h).n_noexit; have hg9_ := ($h).t_worker; have hg10_ := ($h).wf_nw; inv_grind) | (have hh_ := $h; cases hh_; inv_grind)))
-  case' a_nd => (have hf_ := ($h).a_nd; inv_simp; try (first | exact hf_ | inv_grind | (have hg0_ := ($h).s_exit_wq; have hg1_ := ($h).s_wqnd; have hg2_ := ($h).s_wq_pc; have hg3_ := ($h).s_woken; have hg4_ := ($h).s_cv; have hg5_ := ($h).n_wake; have hg6_ := ($h).a_mem; have hg7_ := ($h).a_len; have hg8_ := ($h).n_noexit; have hg9_ := ($h).t_worker; have hg10_ := ($h).wf_nw; inv_grind) | (have hh_ := $h; cases hh_; inv_grind)))
-  case' a_mem => (have hf_ := ($h).a_mem; inv_simp; try (first | exact hf_ | inv_grind | (have hg0_ := ($h).s_exit_wq; have hg1_ := ($h).s_wqnd; have hg2_ := ($h).s_wq_pc; have hg3_ := ($h).s_woken; have hg4_ := ($h).s_cv; have hg5_ := ($h).n_wake; have hg6_ := ($h).a_nd; have hg7_ := ($h).a_len; have hg8_ := ($h).n_noexit; have hg9_ := ($h).t_worker; have hg10_ := ($h).wf_nw; inv_grind) | (have hh_ := $h; cases hh_; inv_grind)))
-  case' a_len => (have hf_ := ($h).a_len; inv_simp; try (first | exact hf_ | inv_grind | (have hg0_ := ($h).s_exit_wq; have hg1_ := ($h).s_wqnd; have hg2_ := ($h).s_wq_pc; have hg3_ := ($h).s_woken; have hg4_ := ($h).s_cv; have hg5_ := ($h).n_wake; have hg6_ := ($h).a_nd; have hg7_ := ($h).a_mem; have hg8_ := ($h).n_noexit; have hg9_ := ($h).t_worker; have hg10_ := ($h).wf_nw; inv_grind) | (have hh_ := $h; cases hh_; inv_grind)))
-  case' n_noexit => (have hf_ := ($h).n_noexit; inv_simp; try (first | exact hf_ | inv_grind | (have hg0_ := ($h).s_exit_wq; have hg1_ := ($h).s_wqnd; have hg2_ := ($h).s_wq_pc; have hg3_ := ($h).s_woken; have hg4_ := ($h).s_cv; have hg5_ := ($h).n_wake; have hg6_ := ($h).a_nd; have hg7_ := ($h).a_mem; have hg8_ := ($h).a_len; have hg9_ := ($h).t_worker; have hg10_ := ($h).wf_nw; inv_grind) | (have hh_ := $h; cases hh_; inv_grind)))
+  case' f_own => (have hf_ := ($h).f_own; inv_simp; try (first | exact hf_ | inv_grind | (have hg0_ := ($h).f_own2; have hg1_ := ($h).f_arm; have hg2_ := ($h).f_broken; have hg3_ := ($h).f_brk; have hg4_ := ($h).f_some; have hg5_ := ($h).f_valued; have hg6_ := ($h).f_value; have hg7_ := ($h).f_pending; have hg8_ := ($h).b_fut; have hg9_ := ($h).z_fresh; have hg10_ := ($h).c_once; have hg11_ := ($h).t_enq; have hg12_ := ($h).t_enq2; have hg13_ := ($h).r_job; have hg14_ := ($h).l_rej; have hg15_ := ($h).l_swap; inv_grind) | (have hh_ := $h; cases hh_; inv_grind)))
+  case' f_own2 => (have hf_ := ($h).f_own2; inv_simp; try (first | exact hf_ | inv_grind | (have hg0_ := ($h).f_own; have hg1_ := ($h).f_arm; have hg2_ := ($h).f_broken; have hg3_ := ($h).f_brk; have hg4_ := ($h).f_some; have hg5_ := ($h).f_valued; have hg6_ := ($h).f_value; have hg7_ := ($h).f_pending; have hg8_ := ($h).b_fut; have hg9_ := ($h).z_fresh; have hg10_ := ($h).c_once; have hg11_ := ($h).t_enq; have hg12_ := ($h).t_enq2; have hg13_ := ($h).r_job; have hg14_ := ($h).l_rej; have hg15_ := ($h).l_swap; inv_grind) | (have hh_ := $h; cases hh_; inv_grind)))
+  case' f_arm => (have hf_ := ($h).f_arm; inv_simp; try (first | exact hf_ | inv_grind | (have hg0_ := ($h).f_own; have hg1_ := ($h).f_own2; have hg2_ := ($h).f_broken; have hg3_ := ($h).f_brk; have hg4_ := ($h).f_some; have hg5_ := ($h).f_valued; have hg6_ := ($h).f_value; have hg7_ := ($h).f_pending; have hg8_ := ($h).b_fut; have hg9_ := ($h).z_fresh; have hg10_ := ($h).c_once; have hg11_ := ($h).t_enq; have hg12_ := ($h).t_enq2; have hg13_ := ($h).r_job; have hg14_ := ($h).l_rej; have hg15_ := ($h).l_swap; inv_grind) | (have hh_ := $h; cases hh_; inv_grind)))
+  case' f_broken => (have hf_ := ($h).f_broken; inv_simp; try (first | exact hf_ | inv_grind | (have hg0_ := ($h).f_own; have hg1_ := ($h).f_own2; have hg2_ := ($h).f_arm; have hg3_ := ($h).f_brk; have hg4_ := ($h).f_some; have hg5_ := ($h).f_valued; have hg6_ := ($h).f_value; have hg7_ := ($h).f_pending; have hg8_ := ($h).b_fut; have hg9_ := ($h).z_fresh; have hg10_ := ($h).c_once; have hg11_ := ($h).t_enq; have hg12_ := ($h).t_enq2; have hg13_ := ($h).r_job; have hg14_ := ($h).l_rej; have hg15_ := ($h).l_swap; inv_grind) | (have hh_ := $h; cases hh_; inv_grind)))
+  case' f_brk => (have hf_ := ($h).f_brk; inv_simp; try (first | exact hf_ | inv_grind | (have hg0_ := ($h).f_own; have hg1_ := ($h).f_own2; have hg2_ := ($h).f_arm; have hg3_ := ($h).f_broken; have hg4_ := ($h).f_some; have hg5_ := ($h).f_valued; have hg6_ := ($h).f_value; have hg7_ := ($h).f_pending; have hg8_ := ($h).b_fut; have hg9_ := ($h).z_fresh; have hg10_ := ($h).c_once; have hg11_ := ($h).t_enq; have hg12_ := ($h).t_enq2; have hg13_ := ($h).r_job; have hg14_ := ($h).l_rej; have hg15_ := ($h).l_swap; inv_grind) | (have hh_ := $h; cases hh_; inv_grind)))
+  case' f_some => (have hf_ := ($h).f_some; inv_simp; try (first | exact hf_ | inv_grind | (have hg0_ := ($h).f_own; have hg1_ := ($h).f_own2; have hg2_ := ($h).f_arm; have hg3_ := ($h).f_broken; have hg4_ := ($h).f_brk; have hg5_ := ($h).f_valued; have hg6_ := ($h).f_value; have hg7_ := ($h).f_pending; have hg8_ := ($h).b_fut; have hg9_ := ($h).z_fresh; have hg10_ := ($h).c_once; have hg11_ := ($h).t_enq; have hg12_ := ($h).t_enq2; have hg13_ := ($h).r_job; have hg14_ := ($h).l_rej; have hg15_ := ($h).l_swap; inv_grind) | (have hh_ := $h; cases hh_; inv_grind)))
+  case' f_valued => (have hf_ := ($h).f_valued; inv_simp; try (first | exact hf_ | inv_grind | (have hg0_ := ($h).f_own; have hg1_ := ($h).f_own2; have hg2_ := ($h).f_arm; have hg3_ := ($h).f_broken; have hg4_ := ($h).f_brk; have hg5_ := ($h).f_some; have hg6_ := ($h).f_value; have hg7_ := ($h).f_pending; have hg8_ := ($h).b_fut; have hg9_ := ($h).z_fresh; have hg10_ := ($h).c_once; have hg11_ := ($h).t_enq; have hg12_ := ($h).t_enq2; have hg13_ := ($h).r_job; have hg14_ := ($h).l_rej; have hg15_ := ($h).l_swap; inv_grind) | (have hh_ := $h; cases hh_; inv_grind)))
+  case' f_value => (have hf_ := ($h).f_value; inv_simp; try (first | exact hf_ | inv_grind | (have hg0_ := ($h).f_own; have hg1_ := ($h).f_own2; have hg2_ := ($h).f_arm; have hg3_ := ($h).f_broken; have hg4_ := ($h).f_brk; have hg5_ := ($h).f_some; have hg6_ := ($h).f_valued; have hg7_ := ($h).f_pending; have hg8_ := ($h).b_fut; have hg9_ := ($h).z_fresh; have hg10_ := ($h).c_once; have hg11_ := ($h).t_enq; have hg12_ := ($h).t_enq2; have hg13_ := ($h).r_job; have hg14_ := ($h).l_rej; have hg15_ := ($h).l_swap; inv_grind) | (have hh_ := $h; cases hh_; inv_grind)))
+  case' f_pending => (have hf_ := ($h).f_pending; inv_simp; try (first | exact hf_ | inv_grind | (have hg0_ := ($h).f_own; have hg1_ := ($h).f_own2; have hg2_ := ($h).f_arm; have hg3_ := ($h).f_broken; have hg4_ := ($h).f_brk; have hg5_ := ($h).f_some; have hg6_ := ($h).f_valued; have hg7_ := ($h).f_value; have hg8_ := ($h).b_fut; have hg9_ := ($h).z_fresh; have hg10_ := ($h).c_once; have hg11_ := ($h).t_enq; have hg12_ := ($h).t_enq2; have hg13_ := ($h).r_job; have hg14_ := ($h).l_rej; have hg15_ := ($h).l_swap; inv_grind) | (have hh_ := $h; cases hh_; inv_grind)))
+  case' s_exit_wq => (have hf_ := ($h).s_exit_wq; inv_simp; try (first | exact hf_ | inv_grind | (have hg0_ := ($h).s_wqnd; have hg1_ := ($h).s_wq_pc; have hg2_ := ($h).s_woken; have hg3_ := ($h).s_cv; have hg4_ := ($h).n_wake; have hg5_ := ($h).a_nd; have hg6_ := ($h).a_mem; have hg7_ := ($h).a_len; have hg8_ := ($h).m_own; have hg9_ := ($h).m_enter; have hg10_ := ($h).n_noexit; have hg11_ := ($h).t_worker; have hg12_ := ($h).wf_nw; inv_grind) | (have hh_ := $h; cases hh_; inv_grind)))
+  case' s_wqnd => (have hf_ := ($h).s_wqnd; inv_simp; try (first | exact hf_ | inv_grind | (have hg0_ := ($h).s_exit_wq; have hg1_ := ($h).s_wq_pc; have hg2_ := ($h).s_woken; have hg3_ := ($h).s_cv; have hg4_ := ($h).n_wake; have hg5_ := ($h).a_nd; have hg6_ := ($h).a_mem; have hg7_ := ($h).a_len; have hg8_ := ($h).m_own; have hg9_ := ($h).m_enter; have hg10_ := ($h).n_noexit; have hg11_ := ($h).t_worker; have hg12_ := ($h).wf_nw; inv_grind) | (have hh_ := $h; cases hh_; inv_grind)))
+  case' s_wq_pc => (have hf_ := ($h).s_wq_pc; inv_simp; try (first | exact hf_ | inv_grind | (have hg0_ := ($h).s_exit_wq; have hg1_ := ($h).s_wqnd; have hg2_ := ($h).s_woken; have hg3_ := ($h).s_cv; have hg4_ := ($h).n_wake; have hg5_ := ($h).a_nd; have hg6_ := ($h).a_mem; have hg7_ := ($h).a_len; have hg8_ := ($h).m_own; have hg9_ := ($h).m_enter; have hg10_ := ($h).n_noexit; have hg11_ := ($h).t_worker; have hg12_ := ($h).wf_nw; inv_grind) | (have hh_ := $h; cases hh_; inv_grind)))
+  case' s_woken => (have hf_ := ($h).s_woken; inv_simp; try (first | exact hf_ | inv_grind | (have hg0_ := ($h).s_exit_wq; have hg1_ := ($h).s_wqnd; have hg2_ := ($h).s_wq_pc; have hg3_ := ($h).s_cv; have hg4_ := ($h).n_wake; have hg5_ := ($h).a_nd; have hg6_ := ($h).a_mem; have hg7_ := ($h).a_len; have hg8_ := ($h).m_own; have hg9_ := ($h).m_enter; have hg10_ := ($h).n_noexit; have hg11_ := ($h).t_worker; have hg12_ := ($h).wf_nw; inv_grind) | (have hh_ := $h; cases hh_; inv_grind)))
+  case' s_cv => (have hf_ := ($h).s_cv; inv_simp; try (first | exact hf_ | inv_grind | (have hg0_ := ($h).s_exit_wq; have hg1_ := ($h).s_wqnd; have hg2_ := ($h).s_wq_pc; have hg3_ := ($h).s_woken; have hg4_ := ($h).n_wake; have hg5_ := ($h).a_nd; have hg6_ := ($h).a_mem; have hg7_ := ($h).a_len; have hg8_ := ($h).m_own; have hg9_ := ($h).m_enter; have hg10_ := ($h).n_noexit; have hg11_ := ($h).t_worker; have hg12_ := ($h).wf_nw; inv_grind) | (have hh_ := $h; cases hh_; inv_grind)))
+  case' n_wake => (have hf_ := ($h).n_wake; inv_simp; try (first | exact hf_ | inv_grind | (have hg0_ := ($h).s_exit_wq; have hg1_ := ($h).s_wqnd; have hg2_ := ($h).s_wq_pc; have hg3_ := ($h).s_woken; have hg4_ := ($h).s_cv; have hg5_ := ($h).a_nd; have hg6_ := ($h).a_mem; have hg7_ := ($h).a_len; have hg8_ := ($h).m_own; have hg9_ := ($h).m_enter; have hg10_ := ($h).n_noexit; have hg11_ := ($h).t_worker; have hg12_ := ($h).wf_nw; inv_grind) | (have hh_ := $h; cases hh_; inv_grind)))
+  case' a_nd => (have hf_ := ($h).a_nd; inv_simp; try (first | exact hf_ | inv_grind | (have hg0_ := ($h).s_exit_wq; have hg1_ := ($h).s_wqnd; have hg2_ := ($h).s_wq_pc; have hg3_ := ($h).s_woken; have hg4_ := ($h).s_cv; have hg5_ := ($h).n_wake; have hg6_ := ($h).a_mem; have hg7_ := ($h).a_len; have hg8_ := ($h).m_own; have hg9_ := ($h).m_enter; have hg10_ := ($h).n_noexit; have hg11_ := ($h).t_worker; have hg12_ := ($h).wf_nw; inv_grind) | (have hh_ := $h; cases hh_; inv_grind)))
+  case' a_mem => (have hf_ := ($h).a_mem; inv_simp; try (first | exact hf_ | inv_grind | (have hg0_ := ($h).s_exit_wq; have hg1_ := ($h).s_wqnd; have hg2_ := ($h).s_wq_pc; have hg3_ := ($h).s_woken; have hg4_ := ($h).s_cv; have hg5_ := ($h).n_wake; have hg6_ := ($h).a_nd; have hg7_ := ($h).a_len; have hg8_ := ($h).m_own; have hg9_ := ($h).m_enter; have hg10_ := ($h).n_noexit; have hg11_ := ($h).t_worker; have hg12_ := ($h).wf_nw; inv_grind) | (have hh_ := $h; cases hh_; inv_grind)))
+  case' a_len => (have hf_ := ($h).a_len; inv_simp; try (first | exact hf_ | inv_grind | (have hg0_ := ($h).s_exit_wq; have hg1_ := ($h).s_wqnd; have hg2_ := ($h).s_wq_pc; have hg3_ := ($h).s_woken; have hg4_ := ($h).s_cv; have hg5_ := ($h).n_wake; have hg6_ := ($h).a_nd; have hg7_ := ($h).a_mem; have hg8_ := ($h).m_own; have hg9_ := ($h).m_enter; have hg10_ := ($h).n_noexit; have hg11_ := ($h).t_worker; have hg12_ := ($h).wf_nw; inv_grind) | (have hh_ := $h; cases hh_; inv_grind)))
+  case' m_own => (have hf_ := ($h).m_own; inv_simp; try (first | exact hf_ | inv_grind | (have hg0_ := ($h).s_exit_wq; have hg1_ := ($h).s_wqnd; have hg2_ := ($h).s_wq_pc; have hg3_ := ($h).s_woken; have hg4_ := ($h).s_cv; have hg5_ := ($h).n_wake; have hg6_ := ($h).a_nd; have hg7_ := ($h).a_mem; have hg8_ := ($h).a_len; have hg9_ := ($h).m_enter; have hg10_ := ($h).n_noexit; have hg11_ := ($h).t_worker; have hg12_ := ($h).wf_nw; inv_grind) | (have hh_ := $h; cases hh_; inv_grind)))
+  case' m_enter => (have hf_ := ($h).m_enter; inv_simp; try (first | exact hf_ | inv_grind | (have hg0_ := ($h).s_exit_wq; have hg1_ := ($h).s_wqnd; have hg2_ := ($h).s_wq_pc; have hg3_ := ($h).s_woken; have hg4_ := ($h).s_cv; have hg5_ := ($h).n_wake; have hg6_ := ($h).a_nd; have hg7_ := ($h).a_mem; have hg8_ := ($h).a_len; have hg9_ := ($h).m_own; have hg10_ := ($h).n_noexit; have hg11_ := ($h).t_worker; have hg12_ := ($h).wf_nw; inv_grind) | (have hh_ := $h; cases hh_; inv_grind)))
+  case' n_noexit => (have hf_ := ($h).n_noexit; inv_simp; try (first | exact hf_ | inv_grind | (have hg0_ := ($h).s_exit_wq; have hg1_ := ($h).s_wqnd; have hg2_ := ($h).s_wq_pc; have hg3_ := ($h).s_woken; have hg4_ := ($h).s_cv; have hg5_ := ($h).n_wake; have hg6_ := ($h).a_nd; have hg7_ := ($h).a_mem; have hg8_ := ($h).a_len; have hg9_ := ($h).m_own; have hg10_ := ($h).m_enter; have hg11_ := ($h).t_worker; have hg12_ := ($h).wf_nw; inv_grind) | (have hh_ := $h; cases hh_; inv_grind)))
   case' s_tmp_pc => (have hf_ := ($h).s_tmp_pc; inv_simp; try (first | exact hf_ | inv_grind | (have hg0_ := ($h).n_noexit; have hg1_ := ($h).s_tmp_uniq; have hg2_ := ($h).s_thr_tmp; have hg3_ := ($h).s_jb_head; have hg4_ := ($h).s_tmp_w; have hg5_ := ($h).s_nostuck; have hg6_ := ($h).j_all; have hg7_ := ($h).j_thr; have hg8_ := ($h).j_thr0; have hg9_ := ($h).j_thrw; have hg10_ := ($h).z_det; have hg11_ := ($h).z_cur; have hg12_ := ($h).z_touch; have hg13_ := ($h).d_exit; have hg14_ := ($h).t_worker; have hg15_ := ($h).t_ret; have hg16_ := ($h).t_script; have hg17_ := ($h).wf_nt; inv_grind) | (have hh_ := $h; cases hh_; inv_grind)))
   case' s_tmp_uniq => (have hf_ := ($h).s_tmp_uniq; inv_simp; try (first | exact hf_ | inv_grind | (have hg0_ := ($h).n_noexit; have hg1_ := ($h).s_tmp_pc; have hg2_ := ($h).s_thr_tmp; have hg3_ := ($h).s_jb_head; have hg4_ := ($h).s_tmp_w; have hg5_ := ($h).s_nostuck; have hg6_ := ($h).j_all; have hg7_ := ($h).j_thr; have hg8_ := ($h).j_thr0; have hg9_ := ($h).j_thrw; have hg10_ := ($h).z_det; have hg11_ := ($h).z_cur; have hg12_ := ($h).z_touch; have hg13_ := ($h).d_exit; have hg14_ := ($h).t_worker; have hg15_ := ($h).t_ret; have hg16_ := ($h).t_script; have hg17_ := ($h).wf_nt; inv_grind) | (have hh_ := $h; cases hh_; inv_grind)))
   case' s_thr_tmp => (have hf_ := ($h).s_thr_tmp; inv_simp; try (first | exact hf_ | inv_grind | (have hg0_ := ($h).n_noexit; have hg1_ := ($h).s_tmp_pc; have hg2_ := ($h).s_tmp_uniq; have hg3_ := ($h).s_jb_head; have hg4_ := ($h).s_tmp_w; have hg5_ := ($h).s_nostuck; have hg6_ := ($h).j_all; have hg7_ := ($h).j_thr; have hg8_ := ($h).j_thr0; have hg9_ := ($h).j_thrw; have hg10_ := ($h).z_det; have hg11_ := ($h).z_cur; have hg12_ := ($h).z_touch; have hg13_ := ($h).d_exit; have hg14_ := ($h).t_worker; have hg15_ := ($h).t_ret; have hg16_ := ($h).t_script; have hg17_ := ($h).wf_nt; inv_grind) | (have hh_ := $h; cases hh_; inv_grind)))
